@@ -108,6 +108,10 @@ def _f2(v):
     if "ok" in a and "ok" in b and isinstance(a["ok"], str) and isinstance(b["ok"], str):
         if _f2_rewrite(a["ok"]) == b["ok"] or _f2_rewrite(a["ok"])[:8] == b["ok"][:8] and "#" in b["ok"]:
             return True
+        # long observations are compared as digests (first 8 characters + length): the error of the failing condition leads
+        if "#" in a["ok"] and "#" in b["ok"] and a["ok"].startswith("E:") and b["ok"].startswith("E:") and (
+                a["ok"].startswith("E:Callab") != b["ok"].startswith("E:Callab")):
+            return True
         # final outcomes of two runs of the same program: which of them last saw the failing wait_for_condition on its
         # first execution (original exception) rather than on a replay depends on where the interruptions fell
         return v["oracle"] == "C02.final_outcome_depends_on_interruptions" and _f2_rewrite(b["ok"]) == a["ok"]
